@@ -526,6 +526,9 @@ impl Monitor for C04 {
             if (has("remove_compound_assignment") || has("remove_floor_division")) && t.compound_target_with_multi_line_token {
                 trig.push("compound-assignment-target-with-multi-line-token");
             }
+            if (has("remove_compound_assignment") || has("remove_floor_division")) && t.compound_target_needs_temporary && lex(src, true).map(|lx| !lx.comments().is_empty()).unwrap_or(false) {
+                trig.push("compound-assignment-with-hoisted-operand-and-comments");
+            }
         }
         let removing = ["remove_unused_variable", "remove_empty_do", "remove_unused_while", "filter_after_early_return", "remove_unused_if_branch", "remove_assertions", "remove_debug_profiling", "remove_types"];
         if removing.iter().any(|r| has(r)) {
@@ -547,6 +550,23 @@ struct Trig {
     if_expr_two_elseif: bool,
     multi_name_local_fewer_values: bool,
     compound_target_with_multi_line_token: bool,
+    compound_target_needs_temporary: bool,
+}
+
+/// does the rule have to evaluate a part of the target into a temporary first (anything but `name.f`, `name[literal or name]`)?
+fn target_needs_temporary(target: &Expr) -> bool {
+    fn simple(e: &Expr) -> bool {
+        match e {
+            Expr::Name(_) | Expr::Nil | Expr::True | Expr::False | Expr::Number(..) | Expr::Str(..) | Expr::Vararg => true,
+            Expr::Paren(a) => simple(a),
+            _ => false,
+        }
+    }
+    match target {
+        Expr::Field(p, _) => !simple(p),
+        Expr::Index(p, k) => !simple(p) || !simple(k),
+        _ => false,
+    }
 }
 
 fn has_multi_line_literal(e: &Expr) -> bool {
@@ -585,6 +605,9 @@ fn scan_block(b: &Block, t: &mut Trig) {
             Stmt::CompoundAssign { target, value, .. } => {
                 if has_multi_line_literal(target) {
                     t.compound_target_with_multi_line_token = true;
+                }
+                if target_needs_temporary(target) {
+                    t.compound_target_needs_temporary = true;
                 }
                 scan_expr(target, t);
                 scan_expr(value, t);
